@@ -50,7 +50,7 @@ Print Assumptions C05_select_children_in_order.
    text `$[?e]` returns exactly the children of the root for which the RFC truth value of e holds, in their
    original order (list equality) *)
 Theorem C05_string_level_children_in_order : forall n (e : list (list (xatom (SelT n)))) (d : json),
-  eok (SelT n) (sokT n) e -> egood (SelT n) (sgoodT n) e -> wf_json d = true ->
+  eok (SelT n) (sokT n) e -> egood (SelT n) (sgoodT lit_arg n) (sastT n) lit_arg e -> wf_json d = true ->
   let f := or_ast (SelT n) (sastT n) e in
   exists ps,
     api_with_path (36%N :: 91%N :: filter_text (SelT n) (stextT n) e ++ [93%N]) d
@@ -62,7 +62,7 @@ Print Assumptions C05_string_level_children_in_order.
 (* $[?@.a==1&&!(@.b||$.c)] on [{"a":1},{"a":1,"b":null},{"a":2}] *)
 Example C05_string_level_example :
   let e : list (list (xatom (SelT 0))) :=
-    [[XCmp _ OpEq (XCSq false [SQShort [97]%N]) (XCLit (XInt 1%Z));
+    [[XCmp _ OpEq (XCB _ (XCSq false [SQShort [97]%N])) (XCB _ (XCLit (XInt 1%Z)));
       XParen _ true [[XTest _ false false [GShort _ [98]%N]]; [XTest _ false true [GShort _ [99]%N]]]]] in
   let a := [97]%N in let b := [98]%N in
   let d := JArr [JObj [(a, JNum (NInt 1))]; JObj [(a, JNum (NInt 1)); (b, JNull)]; JObj [(a, JNum (NInt 2))]] in
